@@ -154,13 +154,18 @@ def load_baseline(pid):
     return json.load(open(p))
 
 
-def native(harness, payload, timeout=120):
+def native(harness, payload, timeout=40):
     """run a native harness function under /venv/bin/python against the tree the VCs came from"""
     env = dict(os.environ)
     env["PYTHONPATH"] = repo_root() + os.pathsep + VERIF
     env["PYTHONDONTWRITEBYTECODE"] = "1"
-    p = subprocess.run(["/venv/bin/python", "-m", "harness.run", harness], input=json.dumps(payload),
-                       capture_output=True, text=True, env=env, cwd=VERIF, timeout=timeout)
+    try:
+        p = subprocess.run(["/venv/bin/python", "-m", "harness.run", harness], input=json.dumps(payload),
+                           capture_output=True, text=True, env=env, cwd=VERIF, timeout=timeout)
+    except subprocess.TimeoutExpired:
+        # the real code did not come back: reported as such (a hang is a violation of every property that
+        # promises an answer; the harness name says which call was running)
+        return dict(violates=True, timed_out=True, detail="native replay %s did not terminate within %ds" % (harness, timeout))
     if p.returncode != 0:
         return dict(error="harness exit %d: %s" % (p.returncode, (p.stderr or "")[-1500:]))
     try:
